@@ -543,6 +543,36 @@ func c11Neighbours(r *mon.Run) {
 		r.Count("files_with_many_imports_competing_for_a_type_name_stem", 1)
 		r.Eval(fmt.Sprintf("competing|%s|%d", comp.base, comp.n), true)
 	}
+	// a literal statement that was extended by chaining must not change what the same literal renders as elsewhere
+	// (every Lit call gives a statement of its own)
+	{
+		c := mon.Case{Gen: "neighbour", Seed: r.Seed, Index: 2000}
+		small := []interface{}{true, false, 0, 1, -1, 0.0, 1.0, int8(0), uint8(0), int64(1), float32(0), complex128(0), complex64(0), uintptr(0)}
+		before := make([]string, len(small))
+		for i, v := range small {
+			before[i], _ = rawOf(jen.Var().Id("x").Op("=").Lit(v))
+		}
+		for _, v := range small {
+			v := v
+			jen.Lit(v).Op("&&").Id("pollutedQ")
+			jen.LitFunc(func() interface{} { return v }).Op("||").Id("pollutedQ")
+			jen.BlockFunc(func(g *jen.Group) { g.Lit(v).Dot("pollutedQ"); g.LitFunc(func() interface{} { return v }).Dot("pollutedQ") })
+			(&jen.Statement{}).Lit(v).Op("+").Id("pollutedQ")
+		}
+		for i, v := range small {
+			after, _ := rawOf(jen.Var().Id("x").Op("=").Add(jen.Lit(v))) // the package function, as the polluting statements used
+			viaFunc, _ := rawOf(jen.Var().Id("x").Op("=").Add(jen.LitFunc(func() interface{} { return v })))
+			viaMethod, _ := rawOf(jen.Var().Id("x").Op("=").Lit(v))
+			viaGroup, _ := rawOf(jen.Var().Id("x").Op("=").Add(jen.CustomFunc(jen.Options{}, func(g *jen.Group) { g.Lit(v) })))
+			if viaMethod != before[i] || viaGroup != before[i] {
+				after = viaMethod + viaGroup
+			}
+			if after != before[i] || viaFunc != before[i] {
+				r.Violate("literal-polluted", c, "Lit(%s) renders\n%s(via LitFunc: %s)after other statements that began with the same literal were extended by chaining; before it rendered\n%s", fmtExact(v), after, viaFunc, before[i])
+			}
+		}
+		r.Count("literals_checked_for_shared_statements", int64(len(small)))
+	}
 	// stateful callbacks: a counter, an iterator over values of mixed types
 	{
 		c := mon.Case{Gen: "litfunc-stateful", Seed: r.Seed}
